@@ -34,8 +34,15 @@ def reach(label='main'):
         raise Reached(label)
 
 
-def check(cond, msg):
+def check(cond, msg, *args):
+    # `msg % args` is only formatted on failure: formatting symbolic values
+    # eagerly would create string-theory terms on every path
     if not cond:
+        if args:
+            try:
+                msg = msg % tuple(args)
+            except Exception:
+                msg = '%s %r' % (msg, args)
         raise Violation(msg)
 
 
